@@ -61,6 +61,10 @@ func sendSignal(sig syscall.Signal) bool {
 		}
 		break
 	}
+	// Re-registering takes and releases os/signal's handler lock, which the dispatching goroutine takes too: that
+	// gives "everything this goroutine did before" -> "everything Run does after receiving the signal" a
+	// happens-before edge the race detector can see (the kernel round trip is invisible to it).
+	signal.Notify(guardCh, syscall.SIGHUP, syscall.SIGINT, syscall.SIGTERM)
 	if err := syscall.Kill(os.Getpid(), sig); err != nil {
 		return false
 	}
